@@ -25,7 +25,7 @@ def jobs(tier, seed):
     js = e2_jobs("C10", CLASSES, tier, seed)
     for mode in C.MODES:
         js.append(Job(f"C10/backtracking-loop/{mode}", "contracts.C10:job_backtracking_loop",
-                      dict(n=2, mode=mode, seed=seed, timeout_s=10.0 if tier == "quick" else 60.0), timeout_s=600.0))
+                      dict(n=2, mode=mode, seed=seed, timeout_s=30.0 if tier == "quick" else 90.0), timeout_s=600.0))
     return js
 
 CLAIM = {'engine': 'E2-symtwin + E1-pyvc', 'level': 'other',
